@@ -1,19 +1,20 @@
 #!/usr/bin/env python3
 """Applies every seeded change in turn to a scratch worktree of /repo's HEAD (never to /repo itself), runs the quick
 check of its property there (govc check -repo <worktree>) and records in seeded/<seed>/meta.json whether a VIOLATION
-was raised.  The worktree (/tmp/govc_seedwt/repo) is removed at the end.  Usage: run_seeds.py [seed-or-property ...]"""
+was raised.  The worktree (/tmp/govc_seedwt_<pid>/repo) is removed at the end; all paths are relative to this script's root, so it also runs inside a snapshot of /verif (vp run).  Usage: run_seeds.py [seed-or-property ...]"""
 import json,os,subprocess,sys,glob,re,shutil
-WT='/tmp/govc_seedwt/repo'
+ROOT=os.path.dirname(os.path.dirname(os.path.abspath(__file__)))   # /verif, or a snapshot of it (vp run)
+WT='/tmp/govc_seedwt_%d/repo' % os.getpid()
 def sh(*a,**k): return subprocess.run(list(a),capture_output=True,text=True,**k)
-sh('git','-C','/repo','worktree','remove','--force',WT); shutil.rmtree('/tmp/govc_seedwt',ignore_errors=True); sh('git','-C','/repo','worktree','prune')
-os.makedirs('/tmp/govc_seedwt',exist_ok=True)
+sh('git','-C','/repo','worktree','remove','--force',WT); shutil.rmtree(os.path.dirname(WT),ignore_errors=True); sh('git','-C','/repo','worktree','prune')
+os.makedirs(os.path.dirname(WT),exist_ok=True)
 r=sh('git','-C','/repo','worktree','add','--detach',WT,'HEAD')
 if r.returncode!=0: print(r.stderr); sys.exit(3)
-claimed=[c['property_id'] for c in json.load(open('/verif/MANIFEST.json'))['checks']]
+claimed=[c['property_id'] for c in json.load(open(ROOT+'/MANIFEST.json'))['checks']]
 only=sys.argv[1:]
 rows=[]
 try:
-    for d in sorted(glob.glob('/verif/seeded/*/')):
+    for d in sorted(glob.glob(ROOT+'/seeded/*/')):
         meta=json.load(open(d+'meta.json'))
         if only and meta['seed'] not in only and meta['property'] not in only: continue
         pid=meta['property']
@@ -24,7 +25,7 @@ try:
             meta['detected_by']={"status":"patch does not apply to current /repo","stderr":r.stderr[:300]}; rows.append((meta['seed'],'no-apply'))
         else:
             try:
-                out=sh('/verif/bin/govc','check','-property',pid,'-no-evidence','-repo',WT,cwd='/verif').stdout
+                out=sh(ROOT+'/bin/govc','check','-property',pid,'-no-evidence','-repo',WT,cwd=ROOT,env=dict(os.environ,VERIF_ROOT=ROOT)).stdout
             finally:
                 sh('git','-C',WT,'checkout','--','.'); sh('git','-C',WT,'clean','-fdq')
             viol=[l.strip() for l in out.splitlines() if 'failed obligation' in l]
@@ -35,4 +36,4 @@ try:
         json.dump(meta,open(d+'meta.json','w'),indent=1)
         print(*rows[-1],flush=True)
 finally:
-    sh('git','-C','/repo','worktree','remove','--force',WT); shutil.rmtree('/tmp/govc_seedwt',ignore_errors=True); sh('git','-C','/repo','worktree','prune')
+    sh('git','-C','/repo','worktree','remove','--force',WT); shutil.rmtree(os.path.dirname(WT),ignore_errors=True); sh('git','-C','/repo','worktree','prune')
